@@ -131,8 +131,23 @@ def perturb(rng, v: Any) -> Any:
         return [perturb(rng, x) for x in v]
     if isinstance(v, dict):
         return {k: perturb(rng, x) for k, x in v.items()}
-    if rng.random() < 0.5:
+    r = rng.random()
+    if r < 0.2:
+        return near_scalar(rng, v)
+    if r < 0.55:
         return D.scalar(rng)
+    return v
+
+
+# JSON-distinct values that Python's == and hash() do not tell apart
+NEAR_GROUPS = ((1, True, 1.0), (0, False, 0.0, -0.0), (2, 2.0), (10, 10.0, 1e1))
+
+
+def near_scalar(rng, v: Any) -> Any:
+    for g in NEAR_GROUPS:
+        if any(v == x for x in g) and not isinstance(v, str) and v is not None:
+            others = [x for x in g if type(x) is not type(v) or repr(x) != repr(v)]
+            return rng.choice(others)
     return v
 
 
@@ -159,7 +174,7 @@ def plan(tier: str) -> Dict[str, Any]:
 
 def gen_fspec(rng) -> Dict[str, Any]:
     s = dict(rng.choice(SIGS))
-    s["behav"] = rng.choice(("first", "const", "shape", "shape", "reenter", "poke"))
+    s["behav"] = rng.choice(("first", "const", "shape", "shape", "typed", "reenter", "poke"))
     if s["behav"] == "reenter":
         s["rq"] = rng.choice(("$..a", "$[?@.a]", "$..[?@ > 1]", "$.b.*"))
     return s
@@ -366,7 +381,104 @@ def gen_history(rng, faults: bool) -> Dict[str, Any]:
     clash_at = rng.randrange(nops) if rng.random() < 0.3 else -1
     fail_at = rng.randrange(nops) if rng.random() < 0.3 else -1
     twin_at = rng.randrange(nops) if rng.random() < 0.2 else -1
+    gens_at = rng.randrange(nops) if rng.random() < 0.12 else -1
+    typed_at = rng.randrange(nops) if rng.random() < 0.12 else -1
+    recycle_at = rng.randrange(nops) if rng.random() < 0.12 else -1
+    ngen = 0
     for k in range(nops):
+        if k == recycle_at:
+            # a document is evaluated through a compiled query, then let go of and collected; the
+            # next document comes to lie where it was (same address, other content): whatever was
+            # remembered about the dead document must not be applied to the living one
+            tree = D.random_tree(rng, max_nodes=rng.choice((6, 12, 25)), max_depth=rng.choice((3, 5)))
+            if not isinstance(tree, (list, dict)):
+                tree = [tree]
+            gone = f"x{k}"
+            ops.append({"op": "new_doc", "id": gone, "spec": {"json": tree}})
+            cids = []
+            for _ in range(rng.choice((1, 2))):
+                cid = f"c{len(compiled)}"
+                q = rng.choice(SUSPEND_QUERIES) if rng.random() < 0.7 else rng.choice(qpool)
+                ops.append({"op": "compile", "id": cid, "env": rng.choice(envs), "q": q})
+                compiled.append(cid)
+                cids.append(cid)
+                ops.append({"op": "apply", "c": cid, "doc": gone, "entry": rng.choice(("find", "find", "finditer", "find_one"))})
+            if rng.random() < 0.4:
+                iid = f"i{len(iters)}"
+                ops.append({"op": "iter_open", "id": iid, "c": cids[0], "doc": gone})
+                iters.append(iid)
+                ops.append({"op": "iter_next", "it": iid, "n": rng.choice((1, 2))})
+            ops.append({"op": "forget_doc", "doc": gone})
+            did = f"d{len(docs)}"
+            t2 = perturb(rng, copy.deepcopy(tree)) if rng.random() < 0.7 else D.random_tree(rng, max_nodes=12, max_depth=3)
+            if type(t2) is not type(tree):
+                t2 = perturb(rng, copy.deepcopy(tree))
+            ops.append({"op": "new_doc", "id": did, "spec": {"json": t2}})
+            docs.append(did)
+            shadow[did] = copy.deepcopy(t2)
+            for cid in cids:
+                ops.append({"op": "apply", "c": cid, "doc": did, "entry": rng.choice(("find", "find", "finditer", "find_one"))})
+            continue
+        if k == gens_at:
+            # generations: environments with a function NAME are used, then let go of and collected;
+            # new environments register another function under that name (other types).  Nothing the
+            # library remembers about the dead may be applied to the living (objects are reallocated
+            # where the dead ones were: identity is not a name)
+            name = rng.choice(FNAMES)
+            r1, r2 = rng.sample(["V", "L", "N"], 2)
+            uses = {"V": "$[?{n}(@.a) == 1]", "L": "$[?{n}(@.a)]", "N": "$[?count({n}(@.a)) > 0]"}
+            width = rng.choice((1, 2, 4, 8, 16))
+            gone = []
+            for _ in range(width):
+                eid = f"g{ngen}"
+                ngen += 1
+                fs = {"args": [rng.choice(("V", "N"))], "ret": r1, "behav": rng.choice(("first", "shape", "const"))}
+                ops.append({"op": "new_env", "id": eid, "spec": {"funcs": [[name, fs]]}})
+                cid = f"c{len(compiled)}"
+                ops.append({"op": "compile", "id": cid, "env": eid, "q": uses[r1].format(n=name)})
+                compiled.append(cid)
+                if rng.random() < 0.3:
+                    ops.append({"op": "apply", "c": cid, "doc": rng.choice(docs), "entry": "find"})
+                gone.append(eid)
+            for eid in gone:
+                ops.append({"op": "forget_env", "env": eid})
+            for _ in range(width):
+                eid = f"g{ngen}"
+                ngen += 1
+                fs = {"args": [rng.choice(("V", "N"))], "ret": r2, "behav": rng.choice(("first", "shape", "const"))}
+                ops.append({"op": "new_env", "id": eid, "spec": {"funcs": [[name, fs]]}})
+                for r in (r2, r1) if rng.random() < 0.6 else (r2,):
+                    cid = f"c{len(compiled)}"
+                    ops.append({"op": "compile", "id": cid, "env": eid, "q": uses[r].format(n=name)})
+                    compiled.append(cid)
+                    if rng.random() < 0.4:
+                        ops.append({"op": "apply", "c": cid, "doc": rng.choice(docs), "entry": "find"})
+            continue
+        if k == typed_at:
+            # one compiled query whose user function tells 1, true and 1.0 apart, applied in turn to
+            # documents that differ only in such values: "equal data" means equal JSON, not Python ==
+            eid = f"g{ngen}"
+            ngen += 1
+            ret = rng.choice(("V", "V", "L"))
+            ops.append({"op": "new_env", "id": eid, "spec": {"funcs": [["t", {"args": ["V"], "ret": ret, "behav": "typed"}]]}})
+            rows = [{"a": rng.choice(rng.choice(NEAR_GROUPS)), "b": rng.choice(rng.choice(NEAR_GROUPS))} for _ in range(rng.randint(2, 5))]
+            ids = []
+            for variant in range(rng.choice((2, 3))):
+                did = f"d{len(docs)}"
+                tree = {"a": copy.deepcopy(rows) if variant == 0 else [{kk: near_scalar(rng, vv) for kk, vv in row.items()} for row in rows], "b": 1}
+                ops.append({"op": "new_doc", "id": did, "spec": {"json": tree}})
+                docs.append(did)
+                ids.append(did)
+            if ret == "L":
+                q = rng.choice(("$.a[?t(@.a)]", "$..[?t(@.b) && @.a]", "$.a[?!t(@.a)]", "$.a[?t(@.a) || t(@.b)]"))
+            else:
+                q = rng.choice(("$.a[?t(@.a) == 'int:1']", "$..[?t(@.a) == t(@.b)]", "$.a[?t(@.a) != 'bool:True']", "$.a[?t(@.a) == 'float:1.0' || t(@.b) == 'int:0']", "$.a[?t(@.b) < 'c']", "$.a[?t(@.a) == t(1)]", "$.a[?t(@.a) == t(true) || t(@.b) == t(0)]"))
+            cid = f"c{len(compiled)}"
+            ops.append({"op": "compile", "id": cid, "env": eid, "q": q})
+            compiled.append(cid)
+            for _ in range(rng.choice((2, 3, 4))):
+                ops.append({"op": "apply", "c": cid, "doc": rng.choice(ids), "entry": rng.choice(("find", "find", "finditer", "find_one"))})
+            continue
         if k == twin_at:
             # match() and search() with the SAME pattern, on string-rich data, on the same or
             # different environments: whatever the two share (a compiled-pattern memo, say) must
